@@ -151,7 +151,7 @@ Qed.
 Lemma step_log : forall c s a s' o, step c s a = (s', o) ->
   exists l, log s' = log s ++ l /\ outer_invocations l = [].
 Proof.
-  intros c s a s' o H. unfold step in H. destruct a as [k|ms|n v|p|n|k v|v|rq].
+  intros c s a s' o H. unfold step in H. destruct a as [k|ms|n v|p|n|k v|v|rq|tk z po].
   - exists []. rewrite app_nil_r. split; [|reflexivity].
     replace s' with (fst (do_replyk c s k)) by (rewrite H; reflexivity). apply do_replyk_log.
   - exists []. rewrite app_nil_r. split; [|reflexivity]. destruct (ms <? 0)%Z; inversion H; subst; reflexivity.
@@ -172,6 +172,11 @@ Proof.
       rewrite outer_app, E. reflexivity.
     + exists (ls ++ [LValue v e]). rewrite app_assoc. split; [reflexivity|].
       rewrite outer_app, E. reflexivity.
+  - destruct (is_nil (if tk then q_token (c_d c) else q_params (c_d c))).
+    + inversion H; subst. exists [LParsed tk z]. split; reflexivity.
+    + destruct po; inversion H; subst.
+      * exists [LParsed tk seen]. split; reflexivity.
+      * exists []. rewrite app_nil_r. split; reflexivity.
 Qed.
 
 Lemma run_script_log : forall c sc s s' o, run_script c s sc = (s', o) ->
@@ -305,4 +310,27 @@ Theorem error_other_pf : forall c s ea,
 Proof.
   intros c s ea HR [->|[msg ->]]; cbn [step do_replyk errarg_gerr to_error]; unfold reply_error, reply; rewrite HR;
     eexists; (split; [|reflexivity]); cbn; repeat eexists.
+Qed.
+
+(* ParseParams / ParseToken: the target holds what encoding/json decoded from the raw value sent; a
+   decode error (handler not having replied) is answered with system.invalidParams carrying the
+   decoder's message (params) resp. system.internalError (token) *)
+
+Theorem parse_seen_pf : forall c s tk zero v,
+  step c s (AParse tk zero (ParseOk v)) =
+  (add_log s (LParsed tk (if is_nil (raw_of c tk) then zero else v)), None).
+Proof.
+  intros. unfold raw_of. destruct tk; cbn [step]; [destruct (q_token (c_d c))|destruct (q_params (c_d c))]; reflexivity.
+Qed.
+
+Theorem parse_error_response_pf : forall c s tk zero m,
+  replied s = false -> raw_of c tk <> [] ->
+  pubs (snd (finish c (step c s (AParse tk zero (ParseFail m))))) =
+  pubs s ++ [Pub (c_reply c)
+               (if tk then PError code_internal (s2b "Internal error: " ++ m) None (cur_meta s)
+                else PError code_invalid_params m None (cur_meta s))].
+Proof.
+  intros c s tk zero m HR HN. unfold raw_of in HN.
+  destruct tk; cbn [step]; rewrite (is_nil_false _ HN); cbn [finish]; unfold recover, recover_gen;
+    rewrite HR; cbn [snd to_error]; unfold reply_error; rewrite reply_fst by exact HR; reflexivity.
 Qed.
